@@ -68,27 +68,29 @@ MANIFEST_PART = {
                      "quantify over every header value and payload."),
             "note": ("Trusted: Coq kernel, translator shape matching, hand model of find/hex/int glue (validated by "
                      "correspondence on every run), decoder as oracle.")},
-    "C06": {"text": ("Socket/ASCII half: ASCII chunking independence proved for ALL frame streams and ALL chunk "
-                     "lists (C06_ascii); TCP proved under exactly the hypothesis left by the open defect (no read "
-                     "leaves 1..7 bytes of a frame buffered) with a refutation witness otherwise; correspondence "
-                     "over all cut sets of short streams and single/double/random cuts of long ones."),
-            "note": "Known findings: TCP 1..7-byte buffer -> _process(error=True); foreign-unit frame resets the read."},
+    "C06": {"text": ("Socket/ASCII half: FULL chunking independence proved for both framers (C06_ascii, C06_tcp): for "
+                     "ALL streams mixing frames for served and foreign units and ALL chunk lists (any cut position, "
+                     "empty reads), exactly the frames of the accepted units are delivered, in order, and no call "
+                     "raises; correspondence over all cut sets of short streams, single/double/random cuts of long "
+                     "ones and frames at the size extremes."),
+            "note": ("Formerly open, now fixed and their witnesses must pass: TCP 1..7-byte buffer -> "
+                     "_process(error=True); foreign-unit frame resets the read.")},
     "C07": {"text": ("Socket/ASCII half: gate theorems from ANY receiver state: whenever ASCII checkFrame accepts, the "
                      "buffer holds ':' hex.. CR LF whose two LRC characters equal the specification LRC of the decoded "
                      "bytes and the header carries exactly those values (C07_gate_ascii); whenever the socket "
                      "checkFrame accepts, the MBAP length is >= 2 and the PDU is exactly the next len-1 buffered bytes "
                      "(C07_gate_tcp); a change of any single byte / hex character breaks the LRC equation "
                      "(C07_lrc_single_char); LOOP LEVEL: every element of the delivery list of a receive call, from any state, "
-                     "is justified by such a span of buffer++chunk (C07_deliveries_ascii; C07_deliveries_tcp_partial "
-                     "with the error-path disjunct). Every bit flip, substitution, deletion, insertion and truncation of real "
+                     "is justified by such a span of buffer++chunk (C07_deliveries_ascii, C07_deliveries_tcp - no "
+                     "exception left since the socket framer's error path is gone). Every bit flip, substitution, deletion, insertion and truncation of real "
                      "frames is replayed against the code and judged by a reference receiver written in Coq."),
-            "note": "Open: TCP error path delivers a bogus message from a 1..7-byte buffer (C07_tcp_errpath_refuted; same region as C06)."},
-    "C11": {"text": ("ASCII half: from the synchronised state every read of whole valid frames, one or several per read, "
-                     "is delivered and ends synchronised (C11_after_sync_ascii); arbitrary cutting never loses a frame "
+            "note": "Fixed (witness must pass): TCP error path delivered a bogus message from a 1..7-byte buffer."},
+    "C11": {"text": ("ASCII half: from the synchronised state every read of whole frames, one or several per read, any mix of "
+                     "served and foreign units, delivers exactly the accepted ones and ends synchronised (C11_after_sync_ascii); arbitrary cutting never loses a frame "
                      "(C11_backlog_ascii); the scan loop terminates from any state on any input "
                      "(C11_no_fuel_out_ascii); a raising call followed by the handlers' reset is synchronised "
                      "(C11_recover_ascii_handler); from ANY state (arbitrary garbage) one read of valid frames ends "
-                     "synchronised unless it raises (C11_recover_ascii_partial; C11_recover_ascii with the handler "
+                     "synchronised AND delivers all of them unless it raises (C11_recover_ascii_partial; C11_recover_ascii with the handler "
                      "reset, no hypothesis). Garbage prefixes of eight kinds followed by 70+ valid frames are "
                      "replayed against the code: every frame later than two maximum-size frames after the garbage must "
                      "be delivered, backlog bounded."),
@@ -495,9 +497,10 @@ def suite_cuts_multi(tier):
                 uid = r.choice([1, 17, 247, 255, 0])
                 foreign = si % 3 == 2
                 frames = []
+                fj = r.randrange(nf)
                 for j in range(nf):
                     u = uid
-                    if foreign and j == r.randrange(nf):
+                    if foreign and (j == fj or r.random() < 0.4):
                         u = (uid + 5) % 250 + 1
                     f = rand_frame(r, direction, u, small=True)
                     frames.append(f if kind == "tcp" else (0, 0, f[2], f[3]))
@@ -830,25 +833,12 @@ def classify_for(pid, suite, desc):
             return "F-C03-tls-multi-unit-keyerror"
         return None
     if pid == "C06":
-        if fr == "tcp" and desc.get("error_path_calls"):
-            # the first call that misbehaves took the _process(error=True) branch (1..7 bytes buffered)
-            first_bad = _first_bad_call(desc)
-            if first_bad is not None and first_bad in desc["error_path_calls"]:
-                return "F-C06-tcp-short-buffer-error-path"
-        if _foreign_reset_region(desc):
-            return "F-C06-foreign-unit-resets-read"
-        return None
+        return None          # the former regions (1..7-byte TCP buffer, foreign-unit reset) are fixed: nothing is absorbed
     if pid == "C07":
-        if fr == "tcp" and desc.get("error_path_calls"):
-            bad_calls = [i for i, o in enumerate(desc["impl"]) if o["delivered"]]
-            if any(i in desc["error_path_calls"] for i in bad_calls):
-                return "F-C07-tcp-short-buffer-bogus-delivery"
-        return None
+        return None          # the former region (_process(error=True)) is fixed
     if pid == "C11":
         if desc.get("excs"):
             return "F-C11-ascii-undecodable-frame-stuck"
-        if _c11_foreign_region(desc):
-            return "F-C11-foreign-unit-resets-read"
         return None
     return None
 
